@@ -10,31 +10,59 @@
 (* Documents: 0..MaxObjs objects, 0..MaxProps properties each (every shape);  *)
 (* the properties take their types from the cyclic sequence Kinds (every type *)
 (* ID; references to each object of the document, to itself, to an object     *)
-(* outside the document), started at every offset in Rots.                    *)
+(* outside the document), started at every offset in Rots.  The names come    *)
+(* from three NAMING SCHEMES: "plain" (pairwise different words), "fold"      *)
+(* (names that differ only in the capitalisation after the first letter:      *)
+(* NodeSpec / Nodespec / NODESPEC, podIP / podIp / podip) and "title" (names  *)
+(* that differ in the first letter's case and so become the same Go name:     *)
+(* foo / Foo, bar / Bar); the two latter at the offsets in RotsAlt.           *)
 EXTENDS Codegen, Export
 CONSTANTS MaxObjs,   \* objects per document 0..MaxObjs (<= 3)
           MaxProps,  \* properties per object 0..MaxProps (<= 3)
-          Rots       \* offsets into Kinds
+          Rots,      \* offsets into Kinds, scheme "plain"
+          RotsAlt    \* offsets into Kinds, schemes "fold" and "title"
 VARIABLES v,         \* the input [doc, args]
           seen,      \* Observe: input -> first observation
           nobs       \* number of observations so far (saturates at 2)
 vars == <<v, seen, nobs>>
 
 \* ------------------------------------------------------------------ names (abstraction table)
-\* name -> title-cased form, lower-cased key; checked by the harness against the standard library
+\* name -> title-cased form, lower-cased form; checked by the harness against the standard library
+N(t, f) == [title |-> t, fold |-> f]
 NameTable ==
-    ("alpha"      :> [title |-> "Alpha",      key |-> "alpha"])      @@
-    ("beta_2"     :> [title |-> "Beta_2",     key |-> "beta_2"])     @@
-    ("Gamma"      :> [title |-> "Gamma",      key |-> "gamma"])      @@
-    ("one"        :> [title |-> "One",        key |-> "one"])        @@
-    ("twoWords"   :> [title |-> "TwoWords",   key |-> "twowords"])   @@
-    ("x_3"        :> [title |-> "X_3",        key |-> "x_3"])        @@
-    ("ObjectMeta" :> [title |-> "ObjectMeta", key |-> "objectmeta"]) @@
-    ("absent"     :> [title |-> "Absent",     key |-> "absent"])
-ObjNames  == <<"alpha", "beta_2", "Gamma">>
-PropNames == <<"one", "twoWords", "x_3">>
+    ("alpha"      :> N("Alpha", "alpha"))           @@
+    ("beta_2"     :> N("Beta_2", "beta_2"))         @@
+    ("Gamma"      :> N("Gamma", "gamma"))           @@
+    ("one"        :> N("One", "one"))               @@
+    ("twoWords"   :> N("TwoWords", "twowords"))     @@
+    ("x_3"        :> N("X_3", "x_3"))               @@
+    ("NodeSpec"   :> N("NodeSpec", "nodespec"))     @@
+    ("Nodespec"   :> N("Nodespec", "nodespec"))     @@
+    ("NODESPEC"   :> N("NODESPEC", "nodespec"))     @@
+    ("podIP"      :> N("PodIP", "podip"))           @@
+    ("podIp"      :> N("PodIp", "podip"))           @@
+    ("podip"      :> N("Podip", "podip"))           @@
+    ("foo"        :> N("Foo", "foo"))               @@
+    ("Foo"        :> N("Foo", "foo"))               @@
+    ("bar"        :> N("Bar", "bar"))               @@
+    ("Bar"        :> N("Bar", "bar"))               @@
+    ("ObjectMeta" :> N("ObjectMeta", "objectmeta")) @@
+    ("absent"     :> N("Absent", "absent"))
+Schemes == {"plain", "fold", "title"}
+ObjNamesOf(sch) == CASE sch = "plain" -> <<"alpha", "beta_2", "Gamma">>
+                     [] sch = "fold"  -> <<"NodeSpec", "Nodespec", "NODESPEC">>
+                     [] sch = "title" -> <<"foo", "Foo", "alpha">>
+PropNamesOf(sch) == CASE sch = "plain" -> <<"one", "twoWords", "x_3">>
+                      [] sch = "fold"  -> <<"podIP", "podIp", "podip">>
+                      [] sch = "title" -> <<"bar", "Bar", "one">>
 Outside   == "ObjectMeta"       \* referenced, not declared in the document (README's example)
 AbsentName == "absent"          \* an ignore argument naming no object of the document
+
+\* the key rule of Codegen.tla: lower-cased, unless the same map holds another name with the
+\* same lower-cased form - then title-cased
+KeyIn(nm, names) ==
+    IF \E other \in names \ {nm} : NameTable[other].fold = NameTable[nm].fold
+    THEN NameTable[nm].title ELSE NameTable[nm].fold
 
 \* ------------------------------------------------------------------ property kinds
 K(tid, target) == [tid |-> tid, target |-> target]   \* target: 0 none, 1..3 object index, 4 outside
@@ -47,33 +75,35 @@ NK == Len(Kinds)
 RECURSIVE Before(_, _)
 Before(counts, i) == IF i <= 1 THEN 0 ELSE counts[i - 1] + Before(counts, i - 1)
 
-RefName(kind, n) == IF kind.tid # "ref" THEN ""
-                    ELSE IF kind.target \in 1..n THEN ObjNames[kind.target] ELSE Outside
+RefName(sch, kind, n) == IF kind.tid # "ref" THEN ""
+                         ELSE IF kind.target \in 1..n THEN ObjNamesOf(sch)[kind.target] ELSE Outside
 
-MkProp(k, kind, n) ==
-    LET nm == PropNames[k]
-        rf == RefName(kind, n)
-    IN [name |-> nm, title |-> NameTable[nm].title, key |-> NameTable[nm].key, tid |-> kind.tid,
+MkProp(sch, k, m, kind, n) ==      \* k-th of the m properties of an object
+    LET nm == PropNamesOf(sch)[k]
+        rf == RefName(sch, kind, n)
+    IN [name |-> nm, title |-> NameTable[nm].title,
+        key |-> KeyIn(nm, {PropNamesOf(sch)[x] : x \in 1..m}), tid |-> kind.tid,
         ref |-> rf, reftitle |-> IF rf = "" THEN "" ELSE NameTable[rf].title]
 
-MkDoc(n, counts, r) ==
+MkDoc(sch, n, counts, r) ==
     [i \in 1..n |->
-        LET nm == ObjNames[i] IN
-        [name |-> nm, title |-> NameTable[nm].title, key |-> NameTable[nm].key,
-         props |-> [k \in 1..counts[i] |-> MkProp(k, Kinds[((r + Before(counts, i) + k - 1) % NK) + 1], n)]]]
+        LET nm == ObjNamesOf(sch)[i] IN
+        [name |-> nm, title |-> NameTable[nm].title, key |-> KeyIn(nm, {ObjNamesOf(sch)[x] : x \in 1..n}),
+         props |-> [k \in 1..counts[i] |->
+                      MkProp(sch, k, counts[i], Kinds[((r + Before(counts, i) + k - 1) % NK) + 1], n)]]]
 
-ArgForms(n) == {[form |-> "no_ignore", ign |-> ""]}
-               \cup {[form |-> "with_ignore", ign |-> x] : x \in {ObjNames[i] : i \in 1..n} \cup {AbsentName}}
+ArgForms(sch, n) == {[form |-> "no_ignore", ign |-> ""]}
+                    \cup {[form |-> "with_ignore", ign |-> x] : x \in {ObjNamesOf(sch)[i] : i \in 1..n} \cup {AbsentName}}
 
 \* ------------------------------------------------------------------ outputs a conforming generator may produce
-Live(doc, args) == {i \in DOMAIN doc : ~Ignored(doc[i], args)}
 Perms(S) == {p \in [1..Cardinality(S) -> S] : \A i, j \in DOMAIN p : p[i] = p[j] => i = j}
 Outs(doc, args) == {Emitted(doc, p, rev, titled) : p \in Perms(Live(doc, args)), rev \in BOOLEAN, titled \in BOOLEAN}
 
 \* ------------------------------------------------------------------ the machine
 Init ==
-    \E n \in 0..MaxObjs : \E counts \in [1..n -> 0..MaxProps] : \E r \in Rots : \E a \in ArgForms(n) :
-        /\ v = [doc |-> MkDoc(n, counts, r), args |-> a]
+    \E sch \in Schemes : \E n \in 0..MaxObjs : \E counts \in [1..n -> 0..MaxProps] :
+    \E r \in (IF sch = "plain" THEN Rots ELSE RotsAlt) : \E a \in ArgForms(sch, n) :
+        /\ v = [doc |-> MkDoc(sch, n, counts, r), args |-> a]
         /\ seen = NoObs
         /\ nobs = 0
 
@@ -97,7 +127,7 @@ ModelOK ==
         args == v.args
         live == Live(doc, args)
     IN /\ WF(doc)
-       /\ Shape(doc) \in {"empty", "single", "multi"}
+       /\ Shape(doc) \in {"empty", "single", "multi", "multi_casevariant"}
        /\ nobs = 0 =>
             \* exactly one struct per non-ignored object, one field per property
             /\ Cardinality(Gen(doc, args)) = Cardinality(live)
@@ -107,14 +137,16 @@ ModelOK ==
             /\ \A out \in Outs(doc, args) :
                   /\ Meets(doc, args, out)
                   /\ Verdict(doc, args, out) = "ok"
-                  /\ AbsInGen(doc, args, out)
+                  /\ InGen(doc, args, out)
                   /\ ~NameDrift(doc, out)
+                  /\ DuplicateNames(out) => CaseVariants(doc)
                   /\ WrongTypeOf(doc, args, out) = ""
                   \* and the declarative reading rejects what it must reject
                   /\ Len(out) > 0 => /\ ~Meets(doc, args, DropFirst(out))
                                      /\ Verdict(doc, args, DropFirst(out)) = "missing_struct"
                                      /\ ~Meets(doc, args, out \o <<out[1]>>)
-                                     /\ Verdict(doc, args, out \o <<out[1]>>) = "duplicate_struct"
+                                     /\ Verdict(doc, args, out \o <<out[1]>>) \in
+                                            {"duplicate_struct", "ignored_struct_emitted"}
             \* an ignored object that is emitted nevertheless is rejected
             /\ (live # DOMAIN doc) =>
                   LET all == Emitted(doc, [i \in DOMAIN doc |-> i], FALSE, FALSE)
